@@ -2,7 +2,7 @@
 (* C08 — what `verification.verify(instance)` of a generated Python SDK must report.            *)
 (*                                                                                             *)
 (* A model M: [classes |-> <<[name, base ("" = none), abstract, props |-> <<[name, ty]>>,         *)
-(*                            invs |-> <<[e |-> tree, d |-> description]>>]>>,                   *)
+(*                            invs |-> <<[e, d |-> description, ds |-> shape name, id]>>]>>,      *)
 (*             cprims  |-> <<[name, base (a primitive or another constrained primitive), invs]>>,*)
 (*             vals, funcs (Expr!Eval's G), sigs, enums, root].                                  *)
 (* Types are those of Expr.tla plus [t |-> "cprim", c |-> name].                                 *)
@@ -34,7 +34,7 @@ Flatten(seqs, k) == IF k > Len(seqs) THEN <<>> ELSE seqs[k] \o Flatten(seqs, k +
 
 AllPropsOf(M, n) == LET ch == ClassChain(M, n) IN Flatten([k \in 1..Len(ch) |-> ch[k].props], 1)
 \* invariants with their provenance: own or inherited
-TagInvs(invs, inherited) == [k \in 1..Len(invs) |-> [e |-> invs[k].e, d |-> invs[k].d, inherited |-> inherited]]
+TagInvs(invs, inherited) == [k \in 1..Len(invs) |-> [e |-> invs[k].e, d |-> invs[k].d, ds |-> invs[k].ds, id |-> invs[k].id, inherited |-> inherited]]
 AllInvsOfClass(M, n) == LET ch == ClassChain(M, n) IN Flatten([k \in 1..Len(ch) |-> TagInvs(ch[k].invs, k < Len(ch))], 1)
 AllInvsOfCPrim(M, n) == LET ch == CPrimChain(M, n) IN Flatten([k \in 1..Len(ch) |-> TagInvs(ch[k].invs, k < Len(ch))], 1)
 
@@ -66,7 +66,7 @@ EvaluationsG(M, inst, G) ==
     LET os == Owners(M, inst, [t |-> "inst", c |-> inst.c], "")
     IN  Flatten([k \in 1..Len(os) |->
                     LET invs == InvsOfOwner(M, os[k])
-                    IN  [j \in 1..Len(invs) |-> [path |-> os[k].path, d |-> invs[j].d, e |-> invs[j].e, owner |-> os[k].kind,
+                    IN  [j \in 1..Len(invs) |-> [path |-> os[k].path, d |-> invs[j].d, ds |-> invs[j].ds, id |-> invs[j].id, e |-> invs[j].e, owner |-> os[k].kind,
                                                  inherited |-> invs[j].inherited, r |-> Eval(invs[j].e, [self |-> os[k].val], G)]]], 1)
 
 Evaluations(M, inst) == EvaluationsG(M, inst, GOf(M))
